@@ -10,6 +10,11 @@ import mut
 VERIF = mut.VERIF
 # which checks to run per seed (the property's own check first) and the hand-written description of the change
 SEEDS = {
+ # ---- batch 9 ----
+ "C05-tagged-9byte-native-store-endian-inverted": (["C05", "C01", "C04"], "new _varintRead64/_varintWrite64 helpers for the 9-byte tagged class take the native memcpy path when the host is little-endian (test inverted): the 8 payload bytes are stored low byte first by Put64, Put64FixedWidth and read the same way by Get", "two values >= 2^56 that differ below the top byte, compared bytewise on a little-endian host"),
+ "C07-common-exponent-min-includes-zero-subnormal": (["C07"], "the COMMON_EXPONENT scan of varintFloatEncode takes min_exp over zeros and subnormals too (placeholder exponents 0 / -1022): the uint8_t per-value exponent delta wraps and normal values decode with a wrong exponent, even in FULL precision", "COMMON_EXPONENT mode with a subnormal beside a normal of exponent > -767, or a zero beside a normal >= 2^256"),
+ "C17-bitstream-set-boundary-rewrites-next-slot": (["C17", "C11"], "varintBitstreamSet takes the two-slot path when the value ends exactly on a slot boundary (`> 0` for `>= 0`): the next slot is read and written back unchanged - a racing read-modify-write of storage the caller does not own (and one slot past the end for the last slot)", "(offset + bits) % 64 == 0 and a concurrent writer on the adjacent slot"),
+ "C10-entry-offset-row-base-unscaled": (["C10"], "getEntryByteOffset adds the column term outside the row branches and the row base became row * cols instead of row * cols * entryWidthBytes: rows overlap for every entry wider than one byte, offsets stay inside the buffer", "entry width > 1, more than one row, a write to row >= 1 and a later read of another cell"),
  # ---- batch 8 ----
  "C01-splitfull-reversedforward-minimal-width": (["C01", "C04"], "varintSplitFullReversedPutForward_ writes the external payload with the minimal-width varintExternalPut: a 1-byte payload is no longer promoted to 2 bytes, the unused tag 11000001 appears and the length is 2 where Length_/Put_/ReversedPutReversed_ say 3",
                                                  "one of the 255 values VARINT_SPLIT_FULL_MAX_22 + 1 .. + 255 through the forward reversed writer"),
